@@ -35,7 +35,7 @@ TReset == /\ Is("reset")
 TStart == Is("start") /\ Start(T, Ev.op)
 TLocked == \/ Is("c.locked") /\ Lock(T, "c0", "c1")
            \/ Is("a.locked") /\ T > 0 /\ Lock(T, "d1", "d2")
-           \/ Is("u.locked") /\ Lock(T, "u0", "u1")
+           \/ Is("u.locked") /\ (Lock(T, "u0", "u1") \/ Lock(T, "ra0", "ra1"))
            \/ Is("a.locked") /\ T = 0 /\ WLock("got", "check")
 TClose == \/ Is("c.subcancel") /\ C1(T) /\ pcs'[T] = "c2"
           \/ Is("c.unlock") /\ ((C1(T) /\ pcs'[T] # "c2") \/ C2(T))
@@ -44,7 +44,7 @@ TClose == \/ Is("c.subcancel") /\ C1(T) /\ pcs'[T] = "c2"
           \/ Is("c.watchdone") /\ C5(T)
 TDirect == \/ Is("a.unlock") /\ T > 0 /\ D2(T)
            \/ Is("h.send") /\ T > 0 /\ D3(T)
-TUncache == Is("u.unlock") /\ U1(T)
+TUncache == Is("u.unlock") /\ (U1(T) \/ RA1(T))
 TRet == /\ Is("ret")
         /\ \/ CRet(T) \/ D0(T) \/ DRet(T) \/ D4(T) \/ N0(T) \/ NGot(T) \/ URet(T)
         /\ RetIs(T)
